@@ -1572,33 +1572,16 @@ impl Compiler {
             // If the rhs is a temp tuple then we need to convert
             // it into a regular tuple.
             if rhs_is_temp_tuple {
-                let nodes_len = match &rhs_node.node {
-                    Node::TempTuple(nodes) => nodes.len(),
-                    unexpected => {
-                        return self.error(ErrorKind::UnexpectedNode {
-                            expected: "TempTuple".into(),
-                            unexpected: unexpected.clone(),
-                        });
-                    }
-                };
-
-                let Ok(size_hint) = u32::try_from(nodes_len) else {
-                    return self.error(ErrorKind::TooManyContainerEntries(nodes_len));
-                };
-
-                self.push_op(SequenceStart, &[]);
-                self.push_var_u32(size_hint);
-
-                let temp_register = self.push_register()?;
-
-                for i in 0..nodes_len as u8 {
-                    self.push_op(TempIndex, &[temp_register, rhs_register, i]);
-                    self.push_op_without_span(SequencePush, &[temp_register]);
+                if !matches!(&rhs_node.node, Node::TempTuple(_)) {
+                    return self.error(ErrorKind::UnexpectedNode {
+                        expected: "TempTuple".into(),
+                        unexpected: rhs_node.node.clone(),
+                    });
                 }
 
-                // temp_register is popped by the `truncate_register_stack` below
-
-                self.push_op_without_span(SequenceToTuple, &[result_register]);
+                // Copying the elements one by one with TempIndex would address them with signed
+                // 8 bit indices, which wrap for temp tuples with more than 127 elements.
+                self.push_op(TempTupleToTuple, &[result_register, rhs_register]);
             } else {
                 self.push_op(Copy, &[result_register, rhs_register]);
             }
